@@ -5,7 +5,7 @@ from fractions import Fraction
 import z3
 
 from . import ops
-from .values import (Obj, Opt, SStr, Hole, PyList, PyDict, SymSeq, BoundMethod, ClassRef, ExtClass,
+from .values import (OptObj, Lazy, Obj, Opt, SStr, Hole, PyList, PyDict, SymSeq, BoundMethod, ClassRef, ExtClass,
                      ExtModule, Model, Unsupported, PathDead, NotPure, PyExc, Splice,
                      is_number, is_bool, is_symstr, is_strlike, to_real, conc_number, mkstr,
                      as_const_bool)
@@ -642,6 +642,8 @@ class Interp(object):
         obj.fields[name] = v
 
     def set_attr(self, base, name, v, node):
+        if isinstance(base, OptObj):
+            base = self.unwrap(base, node, "attribute store on None")
         if isinstance(base, Obj):
             if base.cls is not None:
                 ps = self.find_prop(base.cls, name, setter=True)
@@ -800,14 +802,30 @@ class Interp(object):
             return v.val
         return v
 
+    def unwrap(self, base, node, what):
+        """OptObj -> the referenced object, with the implicit not-None obligation."""
+        c = as_const_bool(base.isnone) if not isinstance(base.isnone, bool) else base.isnone
+        if c is not False:
+            fn = self.ctx.fn_stack[-1] if self.ctx.fn_stack else "?"
+            self.ctx.oblige("%s/no-None@L%s" % (fn, getattr(node, "lineno", "?")),
+                            ops.Not(base.isnone) if not isinstance(base.isnone, bool) else (not base.isnone),
+                            {"implicit": "AttributeError", "what": what}, kind="implicit")
+        return base.obj
+
     def get_attr(self, base, name, node=None):
+        if isinstance(base, OptObj):
+            base = self.unwrap(base, node, "attribute %s of None" % name)
         if isinstance(base, Obj):
             if base.cls is not None:
                 pg = self.find_prop(base.cls, name)
                 if pg is not None:
                     return self.invoke(pg, base, [], {}, node)
             if name in base.fields:
-                return base.fields[name]
+                v = base.fields[name]
+                if isinstance(v, Lazy):
+                    v = v.force()
+                    base.fields[name] = v
+                return v
             if base.cls is not None:
                 m = self.find_method(base.cls, name)
                 if m is not None:
@@ -1050,10 +1068,12 @@ class Interp(object):
         raise Unsupported("compare op", node)
 
     def identical(self, a, b, node):
-        if b is None and isinstance(a, Opt):
+        if b is None and isinstance(a, (Opt, OptObj)):
             return a.isnone
-        if a is None and isinstance(b, Opt):
+        if a is None and isinstance(b, (Opt, OptObj)):
             return b.isnone
+        if isinstance(a, OptObj) or isinstance(b, OptObj):
+            raise Unsupported("'is' between optional object references", node)
         if a is None or b is None:
             return a is None and b is None
         if isinstance(a, (Obj, PyList, PyDict, Model)) or isinstance(b, (Obj, PyList, PyDict, Model)):
@@ -1132,6 +1152,8 @@ class Interp(object):
             return True
         if isinstance(v, Opt):
             return ops.And(ops.Not(v.isnone), v.val != 0)
+        if isinstance(v, OptObj):
+            return ops.Not(v.isnone)
         if isinstance(v, SymSeq):
             return v.length > 0 if ops.is_sym(v.length) else v.length > 0
         if isinstance(v, Model):
@@ -1189,6 +1211,8 @@ class Interp(object):
         return self.call_value(fn, args, kwargs, node)
 
     def call_method(self, base, name, args, kwargs, node):
+        if isinstance(base, OptObj):
+            base = self.unwrap(base, node, "method %s of None" % name)
         if isinstance(base, Obj):
             if base.cls is not None:
                 m = self.find_method(base.cls, name)
